@@ -7,7 +7,7 @@ EXPLANATION = ("Shape of the type-checked program against tables/keyalgo.json (t
                "both output files; (R19.2) the derive step is Hkdf::<Sha512>::new(Some(\"PATH DERIVATION\"), parent.to_bytes()).expand(path.as_bytes(), "
                "[u8; 32]); (R19.3) keyderive chains from_seed(apply_derive(path, secret)) -> generate_keypair -> secret = parse(private_der) inside the "
                "path loop and writes the last pair; (R19.4) generate_keypair: 32 bytes from fill_bytes -> StaticSecret -> PublicKey, DER = constant "
-               "prefix || bytes with the documented PKCS#8 / SPKI prefixes (OID 1.3.101.110); keygen / keyderive create their key files empty (File::create, create_new or create+truncate), so the files depend on the inputs only; (R19.5) the clap declarations of --seed / --path only use presentation, arity and typing builders (no value_delimiter, default, ignore_case ..) and the plain String parser. Numeric key values are runtime facts and not decided.")
+               "prefix || bytes with the documented PKCS#8 / SPKI prefixes (OID 1.3.101.110); keygen / keyderive create their key files empty (File::create, create_new or create+truncate), so the files depend on the inputs only; the key files are created at paths derived from the `output` argument only (KEY and KEY.pub belong together); (R19.5) the clap declarations of --seed / --path only use presentation, arity and typing builders (no value_delimiter, default, ignore_case ..) and the plain String parser. Numeric key values are runtime facts and not decided.")
 TRUSTED = ['rustc MIR', 'sha2, hkdf, rand_chacha, x25519-dalek crates']
 ASSUMPTIONS = ['README.md at the pinned commit is the documented algorithm (tables/keyalgo.json transcribes it)']
 TBL = os.path.join(os.path.dirname(os.path.dirname(os.path.dirname(os.path.abspath(__file__)))), 'tables', 'keyalgo.json')
